@@ -233,6 +233,9 @@ func ParseBufferFullPolicy(s string) (BufferFullPolicy, error) {
 	}
 }
 
+// maxAsyncBufferSize is the largest buffer an AsyncLogger accepts.
+const maxAsyncBufferSize = 1 << 24
+
 // AsyncLogger is an asynchronous logger that buffers events
 // and processes them in a dedicated background goroutine.
 type AsyncLogger struct {
@@ -258,6 +261,11 @@ func (c *AsyncLogger) GetDiscardCounter() int64 {
 func (c *AsyncLogger) Start() error {
 	if c.BufferSize < 100 {
 		return errutil.Explain(nil, "bufferSize is too small")
+	}
+	// make(chan) panics when the buffer cannot be addressed; a size
+	// beyond this limit is a configuration mistake, not a request.
+	if c.BufferSize > maxAsyncBufferSize {
+		return errutil.Explain(nil, "bufferSize is too large")
 	}
 
 	c.buf = make(chan any, c.BufferSize)
